@@ -104,3 +104,10 @@ Proof.
   destruct (first_idle jb) as [k|]; simpl; [|reflexivity]. destruct (nth_error (j_ops jb) k) as [o|]; simpl; [|reflexivity].
   destruct (get_mach x (o_mach o)); simpl; [|reflexivity]. destruct (is_job_at_machine jb (o_mach o)); reflexivity.
 Qed.
+
+(* possible_transition_utils.is_job_next_operation_free (through group_operations_by_state) is the model's test *)
+Theorem gen_is_job_next_operation_free_eq : forall jb, gen_is_job_next_operation_free jb = is_job_next_operation_free jb.
+Proof.
+  intros jb. unfold gen_is_job_next_operation_free, is_job_next_operation_free.
+  destruct (existsb (is_ostate OProc) (j_ops jb)); simpl; [reflexivity|]. destruct (existsb (is_ostate OIdle) (j_ops jb)); reflexivity.
+Qed.
